@@ -1011,6 +1011,21 @@ def reinit_case(rep):
                 rep.translator += 1
                 if not same:
                     break
+        # appended fields are kept one by one whatever their time stamps (repeated times, also while overwriting of FILES is enabled)
+        for allow in (False, True):
+            fio.FieldsIO.ALLOW_OVERWRITE = allow
+            path = os.path.join(d, f'dup{int(allow)}.pysdc')
+            f = fio.Scalar(np.float64, path)
+            f.setHeader(nVar=2)
+            f.initialize()
+            ts = [0.0, 0.25, 0.25, 0.5, 0.5, 0.5, 1.0]
+            for j, t in enumerate(ts):
+                f.addField(t, np.array([float(j), -float(j)]))
+            g = fio.FieldsIO.fromFile(path)
+            ok = g.nFields == len(ts) and g.times == ts and all(g.readField(j)[1].tolist() == [float(j), -float(j)] for j in range(len(ts)))
+            rep.side(f'append/repeated-time-stamps/allow-overwrite{int(allow)}:every-field-kept-at-its-index', ok, {'nFields': g.nFields, 'times': g.times})
+            rep.translator += 1
+        fio.FieldsIO.ALLOW_OVERWRITE = False
     except Exception as e:
         rep.side('reinit/scenarios-run', False, f'{type(e).__name__}: {e}')
     finally:
